@@ -754,6 +754,23 @@ func (x *Exec) applyContract(st *State, fr *Frame, at ssa.Instruction, name stri
 			}
 		}
 	}
+	if fn != nil {
+		// a closure that became a function takes as parameters what it captured, possibly under new
+		// names: its contract keeps naming them as recorded
+		retargetMu.Lock()
+		ren := retargetInputs[fn]
+		retargetMu.Unlock()
+		for old, cur := range ren {
+			if _, ok := sc.vars[old]; ok {
+				continue
+			}
+			for i, p := range fn.Params {
+				if p.Name() == cur && i < len(args) {
+					sc.vars[old] = args[i]
+				}
+			}
+		}
+	}
 	sc.oldHeap = copyHeap(st.heap)
 	sc.oldWorlds = copyWorlds(st.worlds)
 	sc.world = 0
